@@ -127,6 +127,11 @@ func ParseAttributesLine(line string, domain []string, allowMacro bool) (m Match
 	name, unquoted := unquote(line)
 	attrs := strings.Fields(unquoted)
 	if len(name) == 0 {
+		if len(attrs) == 0 {
+			// Nothing but an empty quoted pattern: there is no pattern to
+			// attach attributes to.
+			return m, err
+		}
 		name = attrs[0]
 		attrs = attrs[1:]
 	}
